@@ -339,6 +339,45 @@ def _aperture_dispatch(ctx, repo, soft_scale):
 
 
 # ---------------------------------------------------------------------------------------------
+def _is_ensemble_weights(df: DataFlow, at: int, e: ast.AST) -> bool:
+    """is `e` the weights component (second element) of the value of _unpack_distributions(...)?"""
+    e, at = peel(df, at, e)
+    if isinstance(e, ast.Subscript) and isinstance(e.value, ast.Call) and (call_name(e.value) or "").endswith(
+            "_unpack_distributions"):
+        i = e.slice
+        return isinstance(i, ast.Constant) and i.value == 1 or (
+            isinstance(i, ast.UnaryOp) and isinstance(i.op, ast.USub) and isinstance(i.operand, ast.Constant)
+            and i.operand.value == 1)
+    if isinstance(e, ast.Name):
+        rd = df.reaching(at, e.id)
+        if not rd:
+            return False
+        for d in rd:
+            st = df.cfg.nodes[d.node].ast
+            if not (d.kind == "assign" and isinstance(st, ast.Assign) and isinstance(st.value, ast.Call)
+                    and (call_name(st.value) or "").endswith("_unpack_distributions")
+                    and isinstance(st.targets[0], (ast.Tuple, ast.List)) and len(st.targets[0].elts) == 2
+                    and dotted(st.targets[0].elts[1]) == e.id):
+                return False
+        return True
+    return False
+
+
+def _strip_ensemble_weights(df: DataFlow, at: int, e: ast.AST):
+    """`weights * X` / `X * weights` (through temporaries) -> X: the member's own transfer function"""
+    for _ in range(6):
+        v, at_v = peel(df, at, e)
+        if isinstance(v, ast.BinOp) and isinstance(v.op, ast.Mult):
+            if _is_ensemble_weights(df, at_v, v.left):
+                e, at = v.right, at_v
+                continue
+            if _is_ensemble_weights(df, at_v, v.right):
+                e, at = v.left, at_v
+                continue
+        break
+    return e, at
+
+
 def _envelope(ctx, repo, cname: str, leaf_factory=None):
     f = repo.method(MOD, cname, "_evaluate_from_angular_grid")
     alpha = f.positional_params[1]
@@ -347,10 +386,12 @@ def _envelope(ctx, repo, cname: str, leaf_factory=None):
     at = df.cfg.node_of(ret).idx
     leaf = leaf_factory(df, f) if leaf_factory else None
     ie = IntervalEval(df, leaf=leaf, zero_names=lambda name, node: name == alpha)
-    prove(ctx, "R-INTERVAL", f"{f.qualname}:return", f.loc(ret), ie, ie.ev(ret.value, at), UNIT, f"{cname} value",
+    # the ensemble weights of a distribution-valued spread multiply the member, they are not part of the envelope
+    value, at = _strip_ensemble_weights(df, at, ret.value)
+    prove(ctx, "R-INTERVAL", f"{f.qualname}:return", f.loc(ret), ie, ie.ev(value, at), UNIT, f"{cname} value",
           "the exponent must be minus a product of squares (and of sign(spread)*spread**2 for a non-negative spread)",
           "range")
-    e, at2 = peel(df, at, ret.value)
+    e, at2 = peel(df, at, value)
     ctx.require(isinstance(e, ast.Call) and last_attr(e) == "exp" and len(e.args) == 1,
                 f"{f.qualname}: returned value `{norm_text(e)[:50]}` is not exp(...)")
     arg = e.args[0]
@@ -550,7 +591,10 @@ def run(ctx) -> None:
     repo = ctx.repo
     ctx.rule("R-INTERVAL", "interval abstract interpretation with flow-sensitive names: the values returned by "
              "soft_aperture, hard_aperture, TemporalEnvelope and SpatialEnvelope lie in [0, 1]; the envelope exponents "
-             "lie in (-inf, 0] (SpatialEnvelope under the property's hypothesis angular_spread >= 0)")
+             "lie in (-inf, 0] (SpatialEnvelope under the property's hypothesis angular_spread >= 0).  For a "
+             "distribution-valued spread the kernel returns ensemble weight x envelope (C03); the envelope is the returned "
+             "value with the weights factor — recognised by its origin, the second component of _unpack_distributions — "
+             "taken off")
     ctx.rule("R-SOFTEDGE", "soft_aperture's ramp is clip((cutoff - alpha) / (s * pixel) + 1/2, 0, 1) with pixel = "
              "sqrt((cos(phi)*sampling[0])**2 + (sin(phi)*sampling[1])**2): 1 below cutoff - pixel/2, 0 above "
              "cutoff + pixel/2")
